@@ -26,6 +26,7 @@ import (
 	"fmt"
 	"github.com/polynetwork/poly/common"
 	"github.com/polynetwork/poly/native"
+	"github.com/polynetwork/poly/native/service/governance/node_manager"
 	scom "github.com/polynetwork/poly/native/service/header_sync/common"
 	"github.com/polynetwork/poly/native/service/utils"
 
@@ -45,6 +46,14 @@ func (this *BTCHandler) SyncGenesisHeader(native *native.NativeService) error {
 	params := new(scom.SyncGenesisHeaderParam)
 	if err := params.Deserialization(common.NewZeroCopySource(native.GetInput())); err != nil {
 		return fmt.Errorf("SyncGenesisHeader, contract params deserialize error: %v", err)
+	}
+	// only the current consensus operator may install a side chain's trust root
+	operatorAddress, err := node_manager.GetCurConOperator(native)
+	if err != nil {
+		return fmt.Errorf("BTCHandler SyncGenesisHeader, get current consensus operator address error: %v", err)
+	}
+	if err = utils.ValidateOwner(native, operatorAddress); err != nil {
+		return fmt.Errorf("BTCHandler SyncGenesisHeader, checkWitness error: %v", err)
 	}
 	header, height, err := getGenesisHeader(native.GetInput())
 	if err != nil {
